@@ -19,6 +19,32 @@ theorem tables_ok :
     tlsDefaultList.take 6 = [0xcca8, 0xcca9, 0xc02f, 0xc030, 0xc02b, 0xc02c] ∧
     (∀ s ∈ gmDefaultList, isTLS s = false) ∧ (∀ s ∈ tlsDefaultList, isGM s = false) := by decide
 
+/-- the cipher-suite ids gmtls exports under "implemented by this package" (cipher_suites.go, the const block of
+    TLS_… names; TLS_FALLBACK_SCSV is a signalling value, not a suite) -/
+def exportedTLSSuites : List Suite :=
+  [0x0005, 0x000a, 0x002f, 0x0035, 0x003c, 0x009c, 0x009d, 0xc007, 0xc009, 0xc00a, 0xc011, 0xc012, 0xc013, 0xc014,
+   0xc023, 0xc027, 0xc02f, 0xc02b, 0xc030, 0xc02c, 0xcca8, 0xcca9]
+
+/-- T1 `exported_suites_negotiable` (repaired: rows 0xc013 TLS_ECDHE_RSA_WITH_AES_128_CBC_SHA and 0xc027
+    TLS_ECDHE_RSA_WITH_AES_128_CBC_SHA256 were missing from `cipherSuites`, so a client configured with one of them
+    sent an empty list and a server never selected them).  Every exported TLS suite has a row in the regenerated table,
+    and a TLS 1.2 client and a TLS-capable server that are both configured with exactly that suite, the server
+    holding a certificate of the kind the suite signs with, agree on it. -/
+theorem exported_suites_negotiable :
+    ∀ s ∈ exportedTLSSuites, isTLS s = true ∧
+      ∀ m ∈ [SMode.tls, SMode.auto], ∃ k ∈ [CertKind.rsa, CertKind.ec], negotiate ⟨m, .tls 0x0303, some [s], some [s], false, 0, 0, k⟩ = .ok 0x0303 s 0 := by
+  decide
+
+/-- the two repaired rows in the versions they belong to: the SHA-1 suite from TLS 1.0 on, the SHA-256 suite in
+    TLS 1.2 only; both off/on by default as in crypto/tls (0xc013 is in the default list, 0xc027 is not) -/
+theorem ecdhe_rsa_aes128_cbc_rows :
+    negotiate ⟨.tls, .tls 0x0301, some [0xc013], some [0xc013], false, 0, 0, .rsa⟩ = .ok 0x0301 0xc013 0 ∧
+    negotiate ⟨.auto, .tls 0x0302, some [0xc013], none, true, 4, 1, .rsa⟩ = .ok 0x0302 0xc013 1 ∧
+    negotiate ⟨.tls, .tls 0x0303, some [0xc027], some [0xc027], false, 0, 0, .rsa⟩ = .ok 0x0303 0xc027 0 ∧
+    negotiate ⟨.tls, .tls 0x0302, some [0xc027], some [0xc027], false, 0, 0, .rsa⟩ = .fail ∧
+    negotiate ⟨.tls, .tls 0x0303, some [0xc027], some [0xc027], false, 0, 0, .ec⟩ = .fail ∧
+    0xc013 ∈ tlsDefaultList ∧ 0xc027 ∉ tlsDefaultList := by decide
+
 theorem pick_sound (pref other : List Suite) (ok : Suite → Bool) (s : Suite) (h : pick pref other ok = some s) :
     s ∈ pref ∧ s ∈ other ∧ ok s = true := by
   unfold pick at h
